@@ -148,12 +148,19 @@ var lcS = ipld.LinkContext{Ctx: sessionCtx}
 // RawEnvelopeUvarint as Store.RawEnvelope: raw blocks are stored behind a uvarint length prefix.
 const RawEnvelopeUvarint = -1
 
+// RawEnvelopeStuffed as Store.RawEnvelope: raw blocks are stored byte-stuffed (every byte below 0x40, and 0x7D itself, is
+// written as 0x7D followed by the byte with its top bit flipped): the encoded length depends on the content, not only on
+// its length - two chunks of equal length need not be stored in equally long blocks.
+const RawEnvelopeStuffed = -2
+
 // rawOverhead is the number of framing bytes in front of the content of a raw block stored under the store's raw codec.
 func (s *Store) rawOverhead(block []byte) int {
 	switch {
 	case s.RawEnvelope == RawEnvelopeUvarint:
 		_, n := binary.Uvarint(block)
 		return max(n, 0)
+	case s.RawEnvelope == RawEnvelopeStuffed:
+		return bytes.Count(block, []byte{0x7D})
 	default:
 		return s.RawEnvelope
 	}
@@ -216,6 +223,10 @@ type Store struct {
 	// front of the content (a storage layer that frames or seals leaf blocks; the link system's EncoderChooser is the
 	// caller's to set): the encoded length of a leaf is then more than its content
 	RawEnvelope int
+	// PBEnvelope > 0: link systems made for this store write dag-pb blocks behind that many bytes of envelope and strip
+	// them again when decoding (a custom EncoderChooser / DecoderChooser pair for the dag-pb codec: framed, encrypted or
+	// compressed block formats are set up like this)
+	PBEnvelope int
 
 	// Yield: every read open, write open and commit first gives up the processor (runtime.Gosched), as a store that
 	// blocks on I/O does: in checks that run several goroutines this opens the windows between a library call's steps
@@ -442,6 +453,22 @@ func (s *Store) LinkSystemVariant(variant int) *ipld.LinkSystem {
 				return enc, nil
 			}
 			return func(n datamodel.Node, w io.Writer) error {
+				if fixed == RawEnvelopeStuffed {
+					b, err := n.AsBytes()
+					if err != nil {
+						return err
+					}
+					out := make([]byte, 0, len(b)+len(b)/4)
+					for _, c := range b {
+						if c < 0x40 || c == 0x7D {
+							out = append(out, 0x7D, c^0x80)
+						} else {
+							out = append(out, c)
+						}
+					}
+					_, err = w.Write(out)
+					return err
+				}
 				env := bytes.Repeat([]byte{0xE7}, max(fixed, 0))
 				if fixed == RawEnvelopeUvarint {
 					// a length prefix: the overhead depends on the content's length (1 byte below 128, 2 below 16384, ...)
@@ -455,6 +482,49 @@ func (s *Store) LinkSystemVariant(variant int) *ipld.LinkSystem {
 					return err
 				}
 				return enc(n, w)
+			}, nil
+		}
+	}
+	if s.PBEnvelope > 0 {
+		innerE, innerD, k := ls.EncoderChooser, ls.DecoderChooser, s.PBEnvelope
+		ls.EncoderChooser = func(lp datamodel.LinkPrototype) (codec.Encoder, error) {
+			enc, err := innerE(lp)
+			if err != nil {
+				return nil, err
+			}
+			if clp, ok := lp.(cidlink.LinkPrototype); !ok || clp.Codec != codecDagPB {
+				return enc, nil
+			}
+			return func(n datamodel.Node, w io.Writer) error {
+				if _, err := w.Write(bytes.Repeat([]byte{0xD7}, k)); err != nil {
+					return err
+				}
+				return enc(n, w)
+			}, nil
+		}
+		ls.DecoderChooser = func(l datamodel.Link) (codec.Decoder, error) {
+			dec, err := innerD(l)
+			if err != nil {
+				return nil, err
+			}
+			if cl, ok := l.(cidlink.Link); !ok || cl.Cid.Prefix().Codec != codecDagPB {
+				return dec, nil
+			}
+			return func(na datamodel.NodeAssembler, r io.Reader) error {
+				env := make([]byte, k)
+				if _, err := io.ReadFull(r, env); err != nil {
+					return fmt.Errorf("framed dag-pb block: %w", err)
+				}
+				for _, b := range env {
+					if b != 0xD7 {
+						return fmt.Errorf("framed dag-pb block: bad envelope")
+					}
+				}
+				rest, err := io.ReadAll(r)
+				if err != nil {
+					return err
+				}
+				return dec(na, bytes.NewReader(rest))
 			}, nil
 		}
 	}
